@@ -83,24 +83,8 @@ func (self *Transformer) stmtVariants(node ast.AnalyzedStatement) []ast.Analyzed
 				},
 				Range: node.Span(),
 			}))
-		output = append(output, ast.AnalyzedWhileStatement{
-			Condition: ast.AnalyzedBlockExpression{
-				Block: ast.AnalyzedBlock{
-					Statements: []ast.AnalyzedStatement{node},
-					Expression: nil,
-					Range:      node.Span(),
-					ResultType: ast.NewNeverType(),
-				},
-			},
-			Body: ast.AnalyzedBlock{
-				Statements: make([]ast.AnalyzedStatement, 0),
-				Expression: nil,
-				Range:      node.Span(),
-				ResultType: ast.NewNullType(node.Span()),
-			},
-			NeverTerminates: false,
-			Range:           node.Span(),
-		})
+		// (no `while { return ..; } { }` variant: a while statement has the type null, so a function
+		// whose last statement is this return would no longer diverge and be rejected)
 	case ast.BreakStatementKind:
 		output = append(output, node)
 		output = append(output, ast.AnalyzedStatement(
@@ -173,15 +157,19 @@ func (self *Transformer) stmtVariants(node ast.AnalyzedStatement) []ast.Analyzed
 			NeverTerminates: false,
 			Range:           node.Span(),
 		})
-		output = append(output, ast.AnalyzedWhileStatement{
-			Condition: ast.AnalyzedBoolLiteralExpression{
-				Value: true,
-				Range: node.Range,
-			},
-			Body:            self.Block(node.Body),
-			NeverTerminates: false,
-			Range:           node.Span(),
-		})
+		// A loop without `break` diverges and code after it may rely on that (a function that only returns
+		// from inside the loop): `while true` has the type null and cannot stand in for it.
+		if !node.NeverTerminates {
+			output = append(output, ast.AnalyzedWhileStatement{
+				Condition: ast.AnalyzedBoolLiteralExpression{
+					Value: true,
+					Range: node.Range,
+				},
+				Body:            self.Block(node.Body),
+				NeverTerminates: false,
+				Range:           node.Span(),
+			})
+		}
 	case ast.WhileStatementKind:
 		node := node.(ast.AnalyzedWhileStatement)
 		output = append(output, self.WhileStmtAsLoop(node)...)
@@ -216,9 +204,13 @@ func (self *Transformer) stmtVariants(node ast.AnalyzedStatement) []ast.Analyzed
 		return output
 	}
 
-	// Always true `if`
+	// A diverging statement (return, break, continue, an endless loop) makes the block it ends diverge.
+	// Inside `if true { .. }` or a single-iteration loop it no longer does: the block would result in null.
+	if node.Type().Kind() == ast.NeverTypeKind {
+		return output
+	}
 
-	// TODO: maybe check if the node is NEVER? (if this breaks)
+	// Always true `if`
 	output = append(output, ast.AnalyzedExpressionStatement{
 		Expression: ast.AnalyzedIfExpression{
 			Condition: ast.AnalyzedBoolLiteralExpression{
